@@ -171,6 +171,11 @@ func checkCase(prop string) func(h *hx.H, c Case) {
 			h.Label("executed-twice")
 		}
 		h.Label(r.labels...)
+		for _, l := range r.labels {
+			if strings.HasPrefix(l, "gray:") {
+				h.Gray()
+			}
+		}
 		h.NonTrivial(r.nt)
 		if dir := os.Getenv("P_ORACLE_SURVEY"); dir != "" {
 			// development aid: never fail, count every signature and keep one minimised example of each
